@@ -12,7 +12,7 @@ def mut(name, file, old, new, props, module="."):
 mut("C01-drop-last-header-hash", "block/manager.go", "\t\t\tLastHeaderHash: lastHeaderHash,\n", "", ["C01"])
 mut("C01-datahash-from-full-hash", "block/manager.go", "\t\theader.DataHash = blockData.DACommitment()\n", "\t\theader.DataHash = blockData.Hash()\n", ["C01"])
 mut("C01-ts-guard-only-nonempty", "block/manager.go", "\t\tif batchData.Before(lastHeaderTime) {", "\t\tif len(batchData.Transactions) > 0 && batchData.Before(lastHeaderTime) {", ["C01"])
-mut("C01-apphash-not-delayed", "block/manager.go", "\t\t\t\tAppHash:         m.lastState.AppHash,\n", "\t\t\t\tAppHash:         lastHeaderHash,\n", ["C01"])
+mut("C01-apphash-not-delayed", "block/manager.go", "\t\t\tAppHash:         m.lastState.AppHash,\n", "\t\t\tAppHash:         lastHeaderHash,\n", ["C01"])
 mut("C04-height-before-state", "block/manager.go",
     "\tif err = m.updateState(ctx, newState); err != nil {\n\t\treturn fmt.Errorf(\"failed to update state: %w\", err)\n\t}\n\n\t// Update the store height before submitting to the DA layer but after committing to the DB\n\theaderHeight := header.Height()\n\tif err = m.store.SetHeight(ctx, headerHeight); err != nil {\n\t\treturn err\n\t}\n",
     "\theaderHeight := header.Height()\n\tif err = m.store.SetHeight(ctx, headerHeight); err != nil {\n\t\treturn err\n\t}\n\tif err = m.updateState(ctx, newState); err != nil {\n\t\treturn fmt.Errorf(\"failed to update state: %w\", err)\n\t}\n", ["C04"])
@@ -25,7 +25,7 @@ mut("C06-prefix-marked-all-submitted", "block/submitter.go", "\t\t\tsubmitted :=
 mut("C06-pending-skips-one", "block/pending_base.go", "\tfor i := lastSubmitted + 1; i <= height; i++ {", "\tfor i := lastSubmitted + 2; i <= height; i++ {", ["C06"])
 mut("C06-watermark-not-persisted", "block/pending_base.go", "\t\terr := pb.store.SetMetadata(ctx, pb.metaKey, bz)\n", "\t\tvar err error\n", ["C06"])
 mut("C06-watermark-on-timeout", "block/submitter.go", "\t\tcase coreda.StatusNotIncludedInBlock, coreda.StatusAlreadyInMempool:\n", "\t\tcase coreda.StatusNotIncludedInBlock, coreda.StatusAlreadyInMempool:\n\t\t\tpostSubmit(remaining, &res, gasPrice)\n", ["C06"])
-mut("C07-included-ignores-data", "block/manager.go", "\tisIncluded := m.headerCache.IsDAIncluded(headerHash.String()) && (bytes.Equal(dataHash, dataHashForEmptyTxs) || m.dataCache.IsDAIncluded(dataHash.String()))\n", "\tisIncluded := m.headerCache.IsDAIncluded(headerHash.String())\n", ["C07"])
+mut("C07-included-ignores-data", "block/manager.go", "\tisIncluded := m.headerCache.IsDAIncluded(headerHash.String()) && (bytes.Equal(dataHash, dataHashForEmptyTxs) || m.dataCache.IsDAIncluded(dataHash.String()))\n", "\t_ = dataHash\n\tisIncluded := m.headerCache.IsDAIncluded(headerHash.String())\n", ["C07"])
 mut("C07-data-da-height-from-header", "block/manager.go", "\t\tbinary.LittleEndian.PutUint64(dataHeightBytes, daHeightForData)\n", "\t\tbinary.LittleEndian.PutUint64(dataHeightBytes, daHeightForHeader+daHeightForData-daHeightForData)\n", ["C07"])
 mut("C07-two-heights-at-once", "block/da_includer.go", "\tnewHeight := currentHeight + 1\n", "\tnewHeight := currentHeight + 1\n\tif newHeight%3 == 0 {\n\t\tm.daIncludedHeight.Store(newHeight)\n\t\tcurrentHeight = newHeight\n\t}\n", ["C07"])
 mut("C08-no-skip-empty", "block/submitter.go", "\t\t\tif len(signedDataToSubmit) == 0 && data.Metadata != nil {", "\t\t\tif false && len(signedDataToSubmit) == 0 && data.Metadata != nil {", ["C08"])
